@@ -19,6 +19,7 @@ from .c01 import sym_valid_point, sym_instant, result_obligations
 from .c03 import install_range_summary
 
 PROPERTY = "C18"
+NEEDS_STRING_VALIDATION = True
 L = lift
 
 
@@ -245,6 +246,52 @@ def job_from_epoch(ctx, mode, nlo, nhi, utc=True, as_float=False):
                    bounds={"n": [nlo, nhi]}, sample_every=200)
 
 
+def job_local_format(ctx, fmode):
+    """the basic / extended / reduced text forms of the local offset"""
+    from symx import strs
+    from symx.strs import SymStr, z3_str_eq
+    tzmod = ctx.timezone
+    M_ = core.MOps
+
+    def make(e):
+        return tz_inputs(e, lim=1440, split=True)
+
+    def body(i):
+        tzmod.time = FakeTime(i["std"], i["dst"], i["daylight"], i["isdst"])
+        try:
+            got = tzmod.get_local_time_zone_format(fmode)
+            t = selected_offset(i)
+            if t == 0:
+                return got, "Z"
+            neg = bool(t < 0)
+            a = -t if neg else t
+            hh, mm = M_.div(a, 60), M_.mod(a, 60)
+            if fmode == "extended":
+                want = strs.fmt_percent("%02d:%02d", (hh, mm))
+            elif fmode == "reduced" and bool(mm == 0):
+                want = strs.fmt_percent("%02d", hh)
+            else:
+                want = strs.fmt_percent("%02d%02d", (hh, mm))
+            return got, SymStr.make((["-"] if neg else ["+"]) + list(SymStr.lift(want)))
+        finally:
+            import time as _t
+            tzmod.time = _t
+
+    def post(i, out):
+        if out[0] != "ok":
+            return [("no exception", False)]
+        got, want = out[1]
+        return [("the text form spells the offset ('Z' for zero)", z3_str_eq(got, want))]
+
+    def case_of(v, i):
+        return dict(tz_case(v), check="local_format", fmode=fmode)
+
+    return sym_run("local_format[%s]" % fmode, make, None, body, post, case_of,
+                   scenarios=lambda i: {"local offset text:" + fmode: True, "text for zero offset": csel(i) == 0,
+                                        "reduced with minutes": fmode == "reduced" and csel(i) % 60 != 0},
+                   bounds={"offsets": "std/dst -24:00..+23:59", "mode": fmode})
+
+
 # ---------------------------------------------------------------------------
 def replay(case, M):
     data = M.data
@@ -274,12 +321,23 @@ def _pair_ok(h, m, total):
 
 def _replay(case, M, data, mode):
     k = case["check"]
-    if k in ("local_zone", "to_local") or (k == "from_epoch" and not case["utc"]):
+    if k in ("local_zone", "to_local", "local_format") or (k == "from_epoch" and not case["utc"]):
         M.timezone.time = FakeTime(case["std"], case["dst"], case["daylight"], case["isdst"])
     if k == "local_zone":
         h, m = M.timezone.get_local_time_zone()
         return not _pair_ok(h, m, _sel(case)), "get_local_time_zone() = (%s, %s) for offset %s min (std %s dst %s daylight %s isdst %s)" % (
             h, m, _sel(case), case["std"], case["dst"], case["daylight"], case["isdst"])
+    if k == "local_format":
+        got = M.timezone.get_local_time_zone_format(case["fmode"])
+        t = _sel(case)
+        if t == 0:
+            want = "Z"
+        else:
+            hh, mm = divmod(abs(t), 60)
+            sg = "-" if t < 0 else "+"
+            want = {"extended": "%s%02d:%02d" % (sg, hh, mm), "normal": "%s%02d%02d" % (sg, hh, mm),
+                    "reduced": ("%s%02d" % (sg, hh)) if mm == 0 else "%s%02d%02d" % (sg, hh, mm)}[case["fmode"]]
+        return got != want, "get_local_time_zone_format(%s) = %r for offset %s min, expected %r" % (case["fmode"], got, t, want)
     if k == "to_local":
         p = C.build_point(data, case["p"])
         r = p.to_local_time_zone()
@@ -306,6 +364,8 @@ def _replay(case, M, data, mode):
 def jobs(tier):
     th = tier == "thorough"
     J = [("job_local_zone", {})]
+    for fm in ("normal", "extended", "reduced"):
+        J.append(("job_local_format", dict(fmode=fm)))
     for rep in (C.REPS if th else ["ord"]):
         J.append(("job_to_local", dict(mode="gregorian", rep=rep)))
     tzh = (-99, 99) if th else (-14, 14)
@@ -340,7 +400,7 @@ def job_weight(fn, kw):
 
 
 INFO = {
-    "explanation": "C18: get_local_time_zone on a stubbed `time` module with symbolic standard/daylight offsets, daylight "
+    "explanation": "C18: get_local_time_zone and the three text forms of get_local_time_zone_format on a stubbed `time` module with symbolic standard/daylight offsets, daylight "
                    "flag and tm_isdst; to_local_time_zone, seconds_since_unix_epoch for symbolic TimePoints; and "
                    "get_timepoint_from_seconds_since_unix_epoch for symbolic n (int and float typed, UTC and stubbed local zone).",
     "bounds": {"quick": {"system zone": "std and dst offsets any whole minute within +-24 h, daylight 0/1, tm_isdst -1/0/1",
@@ -348,8 +408,9 @@ INFO = {
                          "from epoch": "n in +-2*366 days (gregorian, 360day; the real code walks one day per path)"},
                "thorough": {"from epoch": "n in +-6*366 days, all 4 modes", "seconds_since_unix_epoch": "offsets -99:59..+99:59; every ordinal/calendar date in all modes, every gregorian week date", "to_local_time_zone": "3 representations"}},
     "outside": ["the from-epoch direction beyond the stated window ('many millennia')", "fractional n",
-                "the three text forms of the local offset (get_local_time_zone_format): str.format on proxies is not modelled yet"],
+],
     "assumptions": ["stub: time.timezone/altzone/daylight/localtime().tm_isdst return arbitrary values of their documented types within the stated ranges"],
 }
-REQUIRED_SCENARIOS = {"all": ["dst in effect", "negative offset below one hour", "negative offset with minutes",
+REQUIRED_SCENARIOS = {"all": ["local offset text:normal", "local offset text:extended", "local offset text:reduced",
+                              "text for zero offset", "reduced with minutes", "dst in effect", "negative offset below one hour", "negative offset with minutes",
                               "zero offset", "before 1970", "after 1970", "negative n"]}
